@@ -150,10 +150,11 @@ def StrToInt(input_string):
     :return BV:                     bitvector of the integer resulting from the string or -1 in
                                     bitvector if the string cannot be transformed into an integer
     """
-    try:
-        return BVV(int(input_string.value), 64)
-    except ValueError:
+    value = input_string.value
+    if not (value.isascii() and value.isdigit()):
+        # only a non-empty sequence of the digits 0-9 denotes a number (no sign, whitespace or other digits)
         return BVV(-1, 64)
+    return BVV(int(value), 64)
 
 
 def StrIsDigit(input_string):
